@@ -201,7 +201,11 @@ func (c *Cursor) Open(ctx context.Context, scope *ReferenceScope, name parser.Id
 		if !ok {
 			return NewInvalidCursorStatementError(c.statement)
 		}
-		view, err = Select(ContextForPreparedStatement(ctx, NewReplaceValues(values)), scope, stmt)
+		replace, e := EvaluateReplaceValues(ctx, scope, values)
+		if e != nil {
+			return e
+		}
+		view, err = Select(ContextForPreparedStatement(ctx, replace), scope, stmt)
 	}
 	if err != nil {
 		return err
